@@ -349,9 +349,12 @@ undef(void)
 	entry = mapput(&macros, &k);
 	m = *entry;
 	if (m) {
+		/*
+		The macro itself is not freed: an #undef line may sit among the
+		arguments of an invocation of the very macro, which is still
+		being read.
+		*/
 		free(name);
-		free(m->param);
-		free(m->token);
 		*entry = NULL;
 	}
 	scan(&tok);
